@@ -16,7 +16,7 @@ import time
 from . import tlc
 
 ROOT = os.path.dirname(os.path.dirname(os.path.abspath(__file__)))
-EVID = os.path.join(ROOT, "evidence")
+EVID = os.environ.get("VERIF_EVIDENCE_DIR") or os.path.join(ROOT, "evidence")   # seeded-change runs write elsewhere
 REPLAYS = os.path.join(ROOT, "replays")
 FINDINGS = os.path.join(ROOT, "known_findings.json")
 
